@@ -441,11 +441,16 @@ func runC13(c *Ctx) {
 		hs := w.Func("turn", "Client", "handleSTUNMessage")
 		hc := w.Func("turn", "Client", "handleChannelData")
 		findAddr := w.Func("client", "UDPConn", "FindAddrByChannelNumber")
-		for _, lc := range w.liftCalls(hi, func(f *ssa.Function) bool { return f == hs || f == hc }, 3) {
+		// (a stage that is part of the handler's body — a helper with one call site — is judged
+		// where the call is, on the real values)
+		inHS := func(f *ssa.Function) bool { return f == hs || w.partOf(f, hs) }
+		inHC := func(f *ssa.Function) bool { return f == hc || w.partOf(f, hc) }
+		for _, lc := range w.liftCalls(hi, func(f *ssa.Function) bool { return inHS(f) || inHC(f) }, 3) {
 			cs, fn := lc.at, lc.fn
 			data, from := lc.args[1], lc.args[2]
-			switch fn {
-			case hs:
+			switch {
+			case inHS(fn):
+				fn = hs
 				c.Anchor("C13.5", "Data indication")
 				// data: load of local proto.Data filled by GetFrom(msg)==nil ; from: literal with IP/Port of local PeerAddress filled by GetFrom(msg)==nil
 				var msgVal ssa.Value
@@ -464,6 +469,19 @@ func runC13(c *Ctx) {
 				if lit := w.literalOf(from); lit != nil && msgVal != nil {
 					ib, ifl, ok1 := fieldLoad(lit.fields["IP"])
 					pb, pfl, ok2 := fieldLoad(lit.fields["Port"])
+					// built by a by-value helper (peerAddr.UDPAddr()): the storage the copy was made from
+					if hc2, _ := callOf(w.resolveLoad(from)); hc2 != nil && ok1 && ok2 {
+						if a1, isA := rootAddr(ib).(*ssa.Alloc); isA {
+							if o := w.byValueOrigin(a1, hc2); o != nil {
+								ib = o
+							}
+						}
+						if a2, isA := rootAddr(pb).(*ssa.Alloc); isA {
+							if o := w.byValueOrigin(a2, hc2); o != nil {
+								pb = o
+							}
+						}
+					}
 					if ok1 && ok2 && ifl.Name() == "IP" && pfl.Name() == "Port" && ib == pb {
 						for _, f := range w.factsAt(cs) {
 							if x, isNil, isNF := nilFact(f); isNF && isNil {
@@ -481,7 +499,8 @@ func runC13(c *Ctx) {
 				} else {
 					c.Bad("C13.5", fname(fn), "HandleInbound args", w.instrPos(cs), fmt.Sprintf("the payload/peer pair delivered to the application is not (DATA, XOR-PEER-ADDRESS) of the same indication (data ok=%v, peer ok=%v)", okData, okFrom))
 				}
-			case hc:
+			case inHC(fn):
+				fn = hc
 				c.Anchor("C13.5", "ChannelData")
 				db, df, ok1 := fieldLoad(data)
 				okData := ok1 && df.Name() == "Data"
